@@ -84,6 +84,20 @@ pub fn run_tmrange(tk: &mut Toks) -> Option<String> {
                     else { let z3 = days_from_civil(y3, m3, d.min(dim)); if x3 != exact(z3, ms) { bad(format!("inc_month({y}-{m}-{d} {h}:{mi}:{s}.{ml}, {k}) = {x3:?} is not exactly the number of the shifted date and time ({:?})", exact(z3, ms)), &mut viol); } } }
                 else { bad(format!("inc_month({y}-{m}-{d}, {k}) failed"), &mut viol); }
             } }
+        // "p": neighbouring instants decoded back to back on one thread: the last millisecond of a day, midnight of the next, noon of the first, … for days
+        // on both sides of 1970 (something remembered from the previous call and keyed by a truncating division shows here)
+        "p" => { let mut st = start as u64; let mut next = || { st = st.wrapping_add(0x9E3779B97F4A7C15); let mut z = st; z = (z ^ (z >> 30)).wrapping_mul(0xBF58476D1CE4E5B9); z = (z ^ (z >> 27)).wrapping_mul(0x94D049BB133111EB); z ^ (z >> 31) };
+            for _ in 0..cnt {
+                let r1 = next(); let z = if (r1 >> 40) & 1 == 0 { -((r1 % 70000) as i64) - 1 } else { (r1 % 70000) as i64 };
+                let steps: [(i64, i64); 7] = [(z - 1, 86399999), (z, 0), (z - 1, 43200000), (z, 1), (z, 0), (z - 1, (next() % 86400000) as i64), (z, 0)];
+                for (zz, ms) in steps {
+                    let x = ((zz * 86400000 + ms) as f64) / 86400000.0; digest = mix(digest, x);
+                    let (y, m, d) = civil(zz); let (h, mi, s, ml) = (ms / 3600000, ms / 60000 % 60, ms / 1000 % 60, ms % 1000);
+                    let ok = num(t::year(&[n(x)])) == Some(y as f64) && num(t::month(&[n(x)])) == Some(m as f64) && num(t::day(&[n(x)])) == Some(d as f64) && num(t::day_of_week(&[n(x)])) == Some((zz + 3).rem_euclid(7) as f64)
+                        && num(t::hour(&[n(x)])) == Some(h as f64) && num(t::minute(&[n(x)])) == Some(mi as f64) && num(t::second(&[n(x)])) == Some(s as f64) && num(t::millisecond(&[n(x)])) == Some(ml as f64)
+                        && (!(0..=9999).contains(&y) || t::date_to_string(&[V::String("%Y-%m-%d %H:%M:%S%.3f".into()), n(x)]) == Ok(V::String(format!("{:04}-{:02}-{:02} {:02}:{:02}:{:02}.{:03}", y, m, d, h, mi, s, ml))));
+                    if !ok { bad(format!("{y}-{m}-{d} {h}:{mi}:{s}.{ml} not recovered when decoded right after its neighbour"), &mut viol); }
+                } } }
         // rejections: dates that do not exist and out-of-range time components must be error values
         "r" => for i in start..start + cnt {
             let y = 1 + (i * 37) % 9999; let leap = y % 4 == 0 && (y % 100 != 0 || y % 400 == 0);
